@@ -55,7 +55,9 @@ def run(tier):
             continue
         inputs = realise(kinds, n, rng)
         form = forms[n % 4]
-        data = inputs if form == "list" else [{"reaction": s, "rid": "r%d_%d" % (n, j)} for j, s in enumerate(inputs)]
+        data = inputs if form == "list" else [{"reaction": s, "rid": "r%d_%d" % (n, j),
+                                               "note": ['plain', 'a,b', 'say "hi"', 'x;y', 'caf\u00e9', ' lead', 'tab\tx'][(n + j) % 7]}
+                                              for j, s in enumerate(inputs)]
         runs.append({"name": "L%d" % n, "inputs": data, "form": form, "batch_size": bs if bs else None,
                      "n_jobs": 1, "threshold": 0, "kinds": list(kinds)})
     # missing values in dict / json sources
